@@ -84,6 +84,8 @@ def norm(f, i, roles=None, defs=None, depth=0):
         return N(c[0])
     if k == "CXXOperatorCallExpr" and n.get("oop") == "*" and len(c) == 2:
         return "*" + N(c[1])
+    if k == "ConditionalOperator" and len(c) == 3:
+        return "(%s ? %s : %s)" % (N(c[0]), N(c[1]), N(c[2]))
     return f.r(i)
 
 
@@ -96,6 +98,11 @@ def nstores(f, roles=None, root=None):
         # lhs: do not expand the assigned local itself
         if ln["k"] == "DeclRefExpr":
             lt = (roles or {}).get(ln["ref"]["id"], ln["ref"]["n"])
+            # a store through a reference local writes its referent
+            if ln["ref"]["id"] not in (roles or {}) and ln["ref"].get("t", "").rstrip().endswith("&"):
+                init = q.single_def(f, ln["ref"]["id"], defs)
+                if init is not None:
+                    lt = _lhs_norm(f, init, roles, defs)
         else:
             lt = _lhs_norm(f, s.lhs, roles, defs)
         if s.rhs is None:
@@ -104,6 +111,12 @@ def nstores(f, roles=None, root=None):
             rt = norm(f, s.rhs, roles, defs)
             if s.op != "=":
                 rt = "%s %s %s" % (lt, s.op, rt)
+        # `(p ? p->link : head) = v` is the guarded pair of stores p->link = v / head = v (p tested for null before its dereference)
+        m = re.match(r"^\((.+?) \? (.+) : (.+)\)$", lt)
+        if m and m.group(2).startswith(m.group(1) + "->") and " ? " not in m.group(2) + m.group(3):
+            out.append((s, m.group(2), rt))
+            out.append((s, m.group(3), rt))
+            continue
         out.append((s, lt, rt))
     return out
 
@@ -484,14 +497,18 @@ def link_idiom(prog, chk, rid, classes=tuple(NODE)):
                 # roles: $I = linked node: the local stored into `X->prev` of the insert position / whose ->next is set
                 st0 = nstores(f)
                 I = None
+                # the linked node is the local both of whose list links are written here (`L->next = ..` and `L->prev = ..`)
+                link_w = {}
                 for s, l, r in st0:
                     ln = f.nodes[s.lhs]
-                    if ln["k"] == "MemberExpr" and ln["m"] == "next" and s.rhs is not None:
+                    if ln["k"] == "MemberExpr" and ln["m"] in ("next", "prev") and s.rhs is not None and f.nodes[f.strip(ln["c"][0])]["k"] == "DeclRefExpr":
                         b = base_local(f, ln["c"][0])
-                        rr = base_local(f, s.rhs)
-                        if b is not None and rr is not None and f.nodes[f.strip(ln["c"][0])]["k"] == "DeclRefExpr":
-                            I = b
-                            break
+                        if b is not None:
+                            link_w.setdefault(b["id"], [b, set()])[1].add(ln["m"])
+                for _id, (b, ms) in link_w.items():
+                    if ms == {"next", "prev"}:
+                        I = b
+                        break
                 if I is None:
                     raise AnalysisBroken("cannot identify the linked node in %s" % f.sig)
                 roles = {I["id"]: "$I"}
